@@ -172,3 +172,57 @@ Example C14_example_bad_vendor :
   run true (CWrite [mkReq "X" TString (AStr "4294967296") (AStr "21")] [mkParam "X" TString (VStr "")])
   = mkOut [] true.
 Proof. vm_compute. reflexivity. Qed.
+
+(* ------------------------------------------------------------------ commands in progress at the same time
+   "Each EdgeX read or write command results in exactly the LLRP request the documentation
+   assigns to it ... IDs and payload come from the parameters" — of THAT command: the SDK serves
+   every REST call on its own goroutine, so commands for the same and for different devices are
+   in progress together.  For every set of callers, every list of commands per caller and every
+   interleaving of their steps: what a caller has put on the wire and the verdicts it got are an
+   initial part of what its commands give one at a time ([run] of each command alone).  [run] is
+   a pure function, so this is immediate once the translation only reads the command's own
+   arguments; the point is the tie: checks/c14.py runs rounds of concurrent commands (markers in
+   every parameter) on the real Driver and evaluates this machine on the same rounds, and the
+   [Shared] mode of the machine (one scratch slot for the documents) does NOT have the property. *)
+Theorem C14_request_function_of_command_alone : forall b lanes sched i,
+  let st := conc_exec Private b sched (conc_init lanes) in
+  exists more_q more_r,
+    all_reqs b (nth i lanes []) = proj_wire i (c_wire st) ++ more_q /\
+    all_results b (nth i lanes []) = l_results (c_lanes st i) ++ more_r.
+Proof. exact conc_request_function_of_command_alone. Qed.
+Print Assumptions C14_request_function_of_command_alone.
+
+(* once a caller's commands have all returned: exactly those requests — none lost, none repeated,
+   none mixed — and exactly those verdicts *)
+Theorem C14_concurrent_commands_exact : forall b lanes sched i,
+  let st := conc_exec Private b sched (conc_init lanes) in
+  lane_finished (c_lanes st i) = true ->
+  proj_wire i (c_wire st) = all_reqs b (nth i lanes []) /\
+  l_results (c_lanes st i) = all_results b (nth i lanes []).
+Proof. exact conc_finished_exact. Qed.
+Print Assumptions C14_concurrent_commands_exact.
+
+(* nothing reaches a reader that no command asked for *)
+Theorem C14_concurrent_wire_attributed : forall b lanes sched i d q,
+  In (i, (d, q)) (c_wire (conc_exec Private b sched (conc_init lanes))) ->
+  exists j, In j (nth i lanes []) /\ d = j_dev j /\ In q (sent (run b (j_cmd j))).
+Proof. exact conc_wire_attributed. Qed.
+Print Assumptions C14_concurrent_wire_attributed.
+
+(* the statement is false when the documents of Object-typed writes go through one slot shared by
+   the callers (witness: two callers adding an ROSpec each, steps alternating) *)
+Theorem C14_shared_scratch_refuted :
+  let st := conc_exec Shared true conc_sched_interleaved (conc_init conc_two_lanes) in
+  conc_finished 2 st = true /\
+  all_reqs true (nth 0 conc_two_lanes []) = [(0, AddROSpec 7)] /\
+  proj_wire 0 (c_wire st) = [(0, AddROSpec 9)].
+Proof. exact shared_scratch_refuted. Qed.
+Print Assumptions C14_shared_scratch_refuted.
+
+(* non-vacuity: the same two callers and schedule on the machine of the theorems *)
+Example C14_example_concurrent :
+  let st := conc_exec Private true conc_sched_interleaved (conc_init conc_two_lanes) in
+  conc_finished 2 st = true /\
+  c_wire st = [(0%nat, (0, AddROSpec 7)); (1%nat, (0, AddROSpec 9))] /\
+  l_results (c_lanes st 0) = [false] /\ l_results (c_lanes st 1) = [false].
+Proof. exact private_example. Qed.
